@@ -720,16 +720,92 @@ theorem libPack_clone {β ν δ : Type} (lib : Lib β ν δ) (m : Msg ν) (heap 
       · rfl
       · exact libRecs_swap lib L _ _ p fresh hp m.records _ _ hother
 
+/-! ### a structural form of the assumption on the library primitives -/
+
+/-- every bounds check of a primitive compares the room it needs with
+`len(msg)`: below it the primitive fails, from it on it succeeds with a result
+that does not mention the buffer length. -/
+structure Room {β ν δ : Type} (lib : Lib β ν δ) : Prop where
+  rr : ∀ o off d, ∃ need bs d' r, ∃ df : Nat → δ,
+    ∀ L, lib.packRR o L off d = if off + need ≤ L then .ok bs d' r else .fail (df L)
+  name : ∀ n off d, ∃ need bs d' r, ∃ df : Nat → δ,
+    ∀ L, lib.packName n L off d = if off + need ≤ L then .ok bs d' r else .fail (df L)
+
+theorem mono_of_room {β ν δ : Type} (lib : Lib β ν δ) (h : Room lib) : Mono lib := by
+  constructor
+  · intro o L L' off d bs d' r hL hok
+    obtain ⟨need, bs0, d0, r0, df, hf⟩ := h.rr o off d
+    rw [hf] at hok ⊢
+    by_cases hn : off + need ≤ L
+    · rw [if_pos hn] at hok; rw [if_pos (by omega)]; exact hok
+    · rw [if_neg hn] at hok; cases hok
+  · intro n L L' off d bs d' r hL hok
+    obtain ⟨need, bs0, d0, r0, df, hf⟩ := h.name n off d
+    rw [hf] at hok ⊢
+    by_cases hn : off + need ≤ L
+    · rw [if_pos hn] at hok; rw [if_pos (by omega)]; exact hok
+    · rw [if_neg hn] at hok; cases hok
+
+/-! ### the storable view -/
+
+theorem isEdns0Rev_some {β : Type} (heap : Heap β) (l : List Slot) (p : Nat)
+    (h : isEdns0Rev heap l = some (some p)) : (heap p).isOPT = true ∧ some p ∈ l := by
+  rw [isEdns0Rev_eq] at h
+  cases hs : selectOPTRev heap l with
+  | mk o b =>
+    rw [hs] at h
+    cases b with
+    | false => simp at h
+    | true =>
+      simp only [if_true, Option.some.injEq] at h
+      subst h
+      obtain ⟨a, _, c, _⟩ := selectOPTRev_some heap l p true hs
+      exact ⟨a, c⟩
+
+theorem storableView_no_opt {β ν : Type} (heap : Heap β) (m : Msg ν) (p : Nat) :
+    isEdns0 heap (storableView heap m).extra ≠ some (some p) := by
+  intro h
+  unfold isEdns0 at h
+  obtain ⟨ho, hm⟩ := isEdns0Rev_some heap _ p h
+  rw [List.mem_reverse] at hm
+  simp only [storableView, List.mem_filter] at hm
+  rw [ho] at hm
+  simp at hm
+
+theorem libPack_heap_of_no_opt {β ν δ : Type} (lib : Lib β ν δ) (m : Msg ν) (heap : Heap β)
+    (h : ∀ p, isEdns0 heap m.extra ≠ some (some p)) : (libPack lib m heap).2 = heap := by
+  unfold libPack
+  rcases libPackWith_heap lib m heap (libBufLen lib m heap) with h1 | ⟨p, hp, _⟩
+  · exact h1
+  · exact absurd hp (h p)
+
 /-! ### ownership of pooled states -/
 
-/-- no identity twice among pool and borrowers, all identities allocated. -/
-def OwnInv (s : Own) : Prop := (s.pool ++ s.borrowed).Nodup ∧ ∀ x ∈ s.pool ++ s.borrowed, x < s.next
+/-- no identity twice among pool and borrowers, all identities allocated, and
+every state in flight holds the bytes of the pack that holds it. -/
+def OwnInv (s : Own) : Prop :=
+  (s.pool ++ s.borrowed).Nodup ∧ (∀ x ∈ s.pool ++ s.borrowed, x < s.next) ∧
+  ∀ x ∈ s.borrowed, s.content x = s.holder x
+
+theorem take_inv (s : Own) (id tag : Nat) (hnd : (s.pool ++ id :: s.borrowed).Nodup)
+    (hlt : ∀ x ∈ s.pool ++ id :: s.borrowed, x < s.next)
+    (hc : ∀ x ∈ s.borrowed, s.content x = s.holder x) : OwnInv (s.take id tag) := by
+  refine ⟨hnd, hlt, ?_⟩
+  intro x hx
+  simp only [Own.take] at hx ⊢
+  by_cases hxi : x = id
+  · simp [hxi]
+  · simp only [hxi, if_false]
+    rcases List.mem_cons.mp hx with h | h
+    · exact absurd h hxi
+    · exact hc x h
 
 theorem ownStep_inv (puts : Exit → Nat) (hp : ∀ e, puts e ≤ 1) (s : Own) (ev : OwnEv) (h : OwnInv s) :
     OwnInv (ownStep puts s ev) := by
-  obtain ⟨hnd, hlt⟩ := h
-  have fresh : OwnInv { s with borrowed := s.next :: s.borrowed, next := s.next + 1 } := by
-    constructor
+  obtain ⟨hnd, hlt, hc⟩ := h
+  have fresh : ∀ tag, OwnInv ({ s with next := s.next + 1 }.take s.next tag) := by
+    intro tag
+    apply take_inv
     · show (s.pool ++ s.next :: s.borrowed).Nodup
       rw [List.perm_middle.nodup_iff, List.nodup_cons]
       exact ⟨fun hm => Nat.lt_irrefl _ (hlt _ hm), hnd⟩
@@ -744,10 +820,11 @@ theorem ownStep_inv (puts : Exit → Nat) (hp : ∀ e, puts e ≤ 1) (s : Own) (
       rcases this with rfl | h
       · omega
       · have := hlt x h; omega
+    · exact hc
   cases ev with
-  | get pick =>
+  | get pick tag =>
     cases pick with
-    | none => exact fresh
+    | none => exact fresh tag
     | some id =>
       unfold ownStep
       by_cases hid : id ∈ s.pool
@@ -756,26 +833,28 @@ theorem ownStep_inv (puts : Exit → Nat) (hp : ∀ e, puts e ≤ 1) (s : Own) (
           refine List.perm_middle.trans ?_
           rw [← List.cons_append]
           exact (List.perm_cons_erase hid).symm.append_right _
-        exact ⟨hperm.nodup_iff.mpr hnd, fun x hx => hlt x (hperm.mem_iff.mp hx)⟩
-      · simp only [hid, if_false]; exact fresh
+        exact take_inv _ id tag (hperm.nodup_iff.mpr hnd) (fun x hx => hlt x (hperm.mem_iff.mp hx)) hc
+      · simp only [hid, if_false]; exact fresh tag
   | finish id e =>
     unfold ownStep
     by_cases hid : id ∈ s.borrowed
     · simp only [hid, if_true]
       have hsub : (s.pool ++ s.borrowed.erase id).Sublist (s.pool ++ s.borrowed) :=
         (List.Sublist.refl _).append List.erase_sublist
+      have hc' : ∀ x ∈ s.borrowed.erase id, s.content x = s.holder x :=
+        fun x hx => hc x (List.erase_subset hx)
       have hpe := hp e
       have hcases : puts e = 0 ∨ puts e = 1 := by omega
       rcases hcases with h0 | h1
       · rw [h0]
-        exact ⟨hnd.sublist hsub, fun x hx => hlt x (hsub.subset hx)⟩
+        exact ⟨hnd.sublist hsub, fun x hx => hlt x (hsub.subset hx), hc'⟩
       · rw [h1]
         have hperm : (List.replicate 1 id ++ s.pool ++ s.borrowed.erase id).Perm (s.pool ++ s.borrowed) := by
           show (id :: (s.pool ++ s.borrowed.erase id)).Perm _
           refine List.perm_middle.symm.trans ?_
           exact (List.perm_cons_erase hid).symm.append_left _
-        exact ⟨hperm.nodup_iff.mpr hnd, fun x hx => hlt x (hperm.mem_iff.mp hx)⟩
-    · simp only [hid, if_false]; exact ⟨hnd, hlt⟩
+        exact ⟨hperm.nodup_iff.mpr hnd, fun x hx => hlt x (hperm.mem_iff.mp hx), hc'⟩
+    · simp only [hid, if_false]; exact ⟨hnd, hlt, hc⟩
 
 theorem ownRun_inv (puts : Exit → Nat) (hp : ∀ e, puts e ≤ 1) (evs : List OwnEv) : OwnInv (ownRun puts evs) := by
   unfold ownRun
@@ -783,6 +862,6 @@ theorem ownRun_inv (puts : Exit → Nat) (hp : ∀ e, puts e ≤ 1) (evs : List 
     induction evs with
     | nil => intro s h; exact h
     | cons ev t ih => intro s h; exact ih _ (ownStep_inv puts hp s ev h)
-  exact this {} ⟨by simp, by simp⟩
+  exact this {} ⟨by simp, by simp, by simp⟩
 
 end SdnsVerif.Lemmas.Packer
